@@ -111,7 +111,8 @@ fn c05_hash_label_values_injective() {
     let x1 = any_str2(&mut b1);
     let y0 = any_str2(&mut b2);
     let y1 = any_str2(&mut b3);
-    rec::reset();
+    let mut __rec = rec::Rec::new();
+    rec::install(&mut __rec);
     let r1 = v.hash_label_values(&[x0, x1]);
     let r2 = v.hash_label_values(&[y0, y1]);
     assert!(r1.is_ok() && r2.is_ok(), "C05.hash_label_values: refused a tuple of the right cardinality");
@@ -141,7 +142,8 @@ fn c05_hash_label_values_frame() {
     let (mut b0, mut b1) = ([0u8; 2], [0u8; 2]);
     let x0 = any_str2(&mut b0);
     let x1 = any_str2(&mut b1);
-    rec::reset();
+    let mut __rec = rec::Rec::new();
+    rec::install(&mut __rec);
     let _ = v.hash_label_values(&[x0, x1]);
     let mut pos = 0;
     assert!(rec::expect_piece(0, &mut pos, x0.as_bytes()), "C05.link: first value is not framed as value ++ 0xFF");
@@ -163,7 +165,8 @@ fn c05_hash_label_values_frame() {
 fn c05_positional_cardinality_errors() {
     let v = mk_vec(&["a", "b"]);
     reset_builder(false);
-    rec::reset();
+    let mut __rec = rec::Rec::new();
+    rec::install(&mut __rec);
     let which: u8 = kani::any();
     let r = match which {
         0 => v.get_metric_with_label_values(&[] as &[&str]),
@@ -193,7 +196,8 @@ fn c05_positional_cardinality_errors() {
 fn c05_map_form_errors() {
     let v = mk_vec(&["a", "b"]);
     reset_builder(false);
-    rec::reset();
+    let mut __rec = rec::Rec::new();
+    rec::install(&mut __rec);
     let mut m: HashMap<&str, &str> = HashMap::new();
     m.insert("a", "x");
     let r = v.get_metric_with(&m);
@@ -230,7 +234,8 @@ fn c05_hash_labels_matches_positional() {
         m.insert("a", x0);
         m.insert("b", x1);
     }
-    rec::reset();
+    let mut __rec = rec::Rec::new();
+    rec::install(&mut __rec);
     let r1 = v.hash_label_values(&[x0, x1]);
     let r2 = v.hash_labels(&m);
     assert!(r1.is_ok() && r2.is_ok(), "C05.hash_labels: refused a complete label map");
@@ -344,55 +349,95 @@ fn c10_get_metric_with_label_values_contract() {
     assert!(builds() == if present { 0 } else { 1 }, "C10.get: second request for the same values built again");
 }
 
-//@ id: c10_delete_reset_collect_contract
+//@ id: c10_delete_contract
 //@ prop: C10
 //@ tier: quick
-//@ strength: bounded(abstract map of <= 2 children, either iteration order), complete in keys
-//@ fn: vec::MetricVecCore::delete_label_values, vec::MetricVecCore::reset, vec::MetricVecCore::collect
-//@ obligation: delete_label_values removes exactly the entry under hash(values) inside one write-guard section (Err and unchanged map if absent) and a handle obtained before stays usable; reset empties the map inside one write-guard section; collect emits exactly one sample per entry (no duplicates, none missing) under a read guard and changes nothing
+//@ strength: bounded(abstract map of <= 2 children), complete in keys
+//@ fn: vec::MetricVecCore::delete_label_values
+//@ obligation: delete_label_values removes exactly the entry under hash(values) inside one write-guard section (Err and unchanged map if absent); a handle obtained before stays usable; other entries untouched
 #[kani::proof]
-#[kani::unwind(6)]
+#[kani::unwind(5)]
 #[kani::stub(alloc::fmt::format, stub_format)]
-fn c10_delete_reset_collect_contract() {
+fn c10_delete_contract() {
     let v = mk_vec(&["a"]);
-    crate::__vcoll::set_order_seed(if kani::any() { 1 } else { 0 });
     let (n, k) = any_children(&v);
-    let which: u8 = kani::any();
-    if which == 0 {
-        let h = v.hash_label_values(&["x"]).unwrap();
-        let present = (n >= 1 && h == k[0]) || (n >= 2 && h == k[1]);
-        let handle = v.children.ghost_peek().get(&h).cloned();
-        let r = v.delete_label_values(&["x"]);
-        assert!(lk::write_acq() == 1 && lk::write_rel() == 1 && lk::held() == 0, "C10.delete: not exactly one write-guard section");
-        let len_after = v.children.ghost_peek().len();
-        if present {
-            assert!(r.is_ok() && len_after == n - 1 && child_id(&v, h).is_none(), "C10.delete: entry not removed");
-            assert!(handle.is_some(), "C10.delete: handle");
-        } else {
-            assert!(r.is_err() && len_after == n, "C10.delete: absent entry must give Err and leave the map unchanged");
-        }
-        if n >= 1 && h != k[0] {
-            assert!(child_id(&v, k[0]) == Some(1), "C10.delete: another child removed or changed");
-        }
-        if n >= 2 && h != k[1] {
-            assert!(child_id(&v, k[1]) == Some(2), "C10.delete: another child removed or changed");
-        }
-    } else if which == 1 {
-        v.reset();
-        assert!(lk::write_acq() == 1 && lk::write_rel() == 1 && lk::held() == 0, "C10.reset: not exactly one write-guard section");
-        assert!(v.children.ghost_peek().len() == 0, "C10.reset: children left");
+    let h = v.hash_label_values(&["x"]).unwrap();
+    let present = (n >= 1 && h == k[0]) || (n >= 2 && h == k[1]);
+    let handle = v.children.ghost_peek().get(&h).cloned();
+    let r = v.delete_label_values(&["x"]);
+    assert!(lk::write_acq() == 1 && lk::write_rel() == 1 && lk::read_acq() == 0 && lk::held() == 0, "C10.delete: not exactly one write-guard section");
+    let len_after = v.children.ghost_peek().len();
+    if present {
+        assert!(r.is_ok() && len_after == n - 1 && child_id(&v, h).is_none(), "C10.delete: entry not removed");
+        assert!(handle.is_some(), "C10.delete: a handle taken before the removal must stay usable");
     } else {
-        let mf = v.collect();
-        assert!(lk::read_acq() == 1 && lk::read_rel() == 1 && lk::write_acq() == 0 && lk::held() == 0, "C10.collect: not exactly one read-guard section");
-        let ms = mf.get_metric();
-        assert!(ms.len() == n, "C10.collect: number of samples differs from the number of children");
-        if n == 2 {
-            let a = ms[0].timestamp_ms();
-            let b = ms[1].timestamp_ms();
-            assert!((a == 1 && b == 2) || (a == 2 && b == 1), "C10.collect: a child is shown twice or is missing");
-        } else if n == 1 {
-            assert!(ms[0].timestamp_ms() == 1, "C10.collect: wrong child");
-        }
-        assert!(v.children.ghost_peek().len() == n, "C10.collect: changed the map");
+        assert!(r.is_err() && len_after == n, "C10.delete: absent entry must give Err and leave the map unchanged");
     }
+    if n >= 1 && h != k[0] {
+        assert!(child_id(&v, k[0]) == Some(1), "C10.delete: another child removed or changed");
+    }
+    if n >= 2 && h != k[1] {
+        assert!(child_id(&v, k[1]) == Some(2), "C10.delete: another child removed or changed");
+    }
+    core::mem::forget((v, r, handle));
+}
+
+//@ id: c10_reset_contract
+//@ prop: C10
+//@ tier: quick
+//@ strength: bounded(abstract map of <= 2 children)
+//@ fn: vec::MetricVecCore::reset
+//@ obligation: reset empties the map inside exactly one write-guard section
+#[kani::proof]
+#[kani::unwind(5)]
+fn c10_reset_contract() {
+    let v = mk_vec(&["a"]);
+    let (_n, _k) = any_children(&v);
+    v.reset();
+    assert!(lk::write_acq() == 1 && lk::write_rel() == 1 && lk::read_acq() == 0 && lk::held() == 0, "C10.reset: not exactly one write-guard section");
+    assert!(v.children.ghost_peek().len() == 0, "C10.reset: children left");
+    core::mem::forget(v);
+}
+
+fn collect_contract(seed: u32) {
+    let v = mk_vec(&["a"]);
+    crate::__vcoll::set_order_seed(seed);
+    let (n, _k) = any_children(&v);
+    let mf = v.collect();
+    assert!(lk::read_acq() == 1 && lk::read_rel() == 1 && lk::write_acq() == 0 && lk::held() == 0, "C10.collect: not exactly one read-guard section");
+    let ms = mf.get_metric();
+    assert!(ms.len() == n, "C10.collect: number of samples differs from the number of children");
+    if n == 2 {
+        let a = ms[0].timestamp_ms();
+        let b = ms[1].timestamp_ms();
+        assert!((a == 1 && b == 2) || (a == 2 && b == 1), "C10.collect: a child is shown twice or is missing");
+    } else if n == 1 {
+        assert!(ms[0].timestamp_ms() == 1, "C10.collect: wrong child");
+    }
+    assert!(v.children.ghost_peek().len() == n, "C10.collect: changed the map");
+    core::mem::forget((v, mf));
+}
+
+//@ id: c10_collect_contract_order0
+//@ prop: C10
+//@ tier: quick
+//@ strength: bounded(abstract map of <= 2 children, map iterated in insertion order)
+//@ fn: vec::MetricVecCore::collect
+//@ obligation: collect emits exactly one sample per entry (no duplicates, none missing) under exactly one read guard and changes nothing
+#[kani::proof]
+#[kani::unwind(5)]
+fn c10_collect_contract_order0() {
+    collect_contract(0);
+}
+
+//@ id: c10_collect_contract_order1
+//@ prop: C10
+//@ tier: quick
+//@ strength: bounded(abstract map of <= 2 children, map iterated in reverse order)
+//@ fn: vec::MetricVecCore::collect
+//@ obligation: collect emits exactly one sample per entry under exactly one read guard, whatever the map's iteration order
+#[kani::proof]
+#[kani::unwind(5)]
+fn c10_collect_contract_order1() {
+    collect_contract(1);
 }
